@@ -17,6 +17,7 @@ package main
 // least one hour (and whole seconds), absolute ones are in 1970 or in 2100.
 
 import (
+	"math"
 	"math/rand"
 	"strconv"
 	"strings"
@@ -175,11 +176,27 @@ func (g *wGen) cursor() string { return g.pick([]string{"0", "0", "0", "1", "2",
 
 var wFloats = []string{"0", "1", "-1", "0.5", "2.25", "1024", "-0.5", "+inf", "-inf", "inf", "Infinity", "-INF",
 	"1.50", "3", "2", "-2", "007", "+1", "0.25", "100.125"}
-var wFloatsOOD = []string{"1e2", "0.1", ".5", "5.", "nan", "-0", "0x10", "1_0", "3.3", "1E-2"}
+var wFloatsOOD = []string{"1e2", "0.1", ".5", "5.", "nan", "-0", "0x10", "1_0", "3.3", "1E-2", "0.30000000000000004", "1e22",
+	"1e23", "4.35", "1e", "1e+", ".e1", "1.7976931348623157e308", "9007199254740993", "1e400", "1e-400", "-1.5e-7", "2.675",
+	"12345678901234567890", "+.5e1", "1.e2"}
 
 func (g *wGen) float() string {
-	if g.p(4) {
+	if g.p(6) {
 		return g.pick(wFloatsOOD)
+	}
+	if g.p(12) {
+		// a random float64 (moderate exponents) printed in a random style and precision
+		f := (g.rnd.Float64()*2 - 1) * math.Pow(10, float64(g.rnd.Intn(40)-20))
+		switch g.rnd.Intn(4) {
+		case 0:
+			return strconv.FormatFloat(f, 'e', g.rnd.Intn(18), 64)
+		case 1:
+			return strconv.FormatFloat(f, 'g', -1, 64)
+		case 2:
+			return strconv.FormatFloat(f, 'f', g.rnd.Intn(22), 64)
+		default:
+			return strconv.FormatFloat(f, 'f', -1, 64)
+		}
 	}
 	if g.p(25) {
 		// a random dyadic rational m / 2^j written out exactly, sometimes with padding
